@@ -229,6 +229,9 @@ func matrixMain(args []string) int {
 			code = 1
 		}
 	}
+	if p := os.Getenv("GVERIF_MAPUPDATES"); p != "" {
+		dumpMapUpdates(w, p)
+	}
 	if os.Getenv("GVERIF_UNTOUCHED") != "" {
 		// blind-spot census (a reading aid, not a check): production functions never looked up by name
 		var out []string
